@@ -215,7 +215,8 @@ static bool gvt_node_phase_run(void)
 				if(r)
 					break;
 				uint32_t q = n_nodes / global_config.n_threads + 1;
-				memset(total_sent + rid * q, 0, q * sizeof(*total_sent));
+				uint32_t first = min(rid * q, (uint32_t)n_nodes);
+				memset(total_sent + first, 0, min(q, n_nodes - first) * sizeof(*total_sent));
 				node_phase = node_phase_redux_second;
 				break;
 			}
